@@ -1,13 +1,14 @@
 /-
 C04 — The pipeline terminates under every schedule and input (no deadlock, lost wake-up or endless loop).
-Spurious wake-ups are not modelled: a waiter moves only on the matching notify (a spurious wake-up re-tests the predicate and
-sleeps again; it cannot prevent termination unless it recurs forever).
+Spurious wake-ups (`std::condition_variable::wait` returning without a notification) are covered by the second group of theorems
+(Model/PipeSpurious.lean): no deadlock, and no infinite execution unless the platform wakes threads spuriously for ever.
 -/
 import Wencry.Proofs.PipeCtl
 import Wencry.Proofs.PipeProgress
 import Wencry.Proofs.SeqGlue
+import Wencry.Proofs.PipeSpurious
 namespace Wencry.Props.C04
-open Wencry Wencry.Model.Pipe Wencry.Model.IoBuffer Wencry.Proofs.PipeCtl Wencry.Proofs.PipeProgress
+open Wencry Wencry.Model.Pipe Wencry.Model.PipeSpurious Wencry.Model.IoBuffer Wencry.Proofs.PipeCtl Wencry.Proofs.PipeProgress
 
 variable {σ : Type}
 
@@ -41,5 +42,37 @@ theorem live_zero_at_end (f : σ → Block → σ × Block) (inp : Input) (hwf :
 theorem file_inputs_are_wellformed (B : Nat) (hB : 1 ≤ B) (ispad : Bool) (fin : Model.Stdio.RFile) :
     Input.WF (fun p => Proofs.SeqGlue.loadsFrom B ispad p fin) ∧ ∃ P, FirstNonFull (fun p => Proofs.SeqGlue.loadsFrom B ispad p fin) P :=
   Proofs.SeqGlue.loadsFrom_wf B hB ispad fin
+
+/-! ### With spurious wake-ups: any thread asleep on a condition variable may at any time be woken without a notification -/
+
+/-- (a) still no deadlock and no lost wake-up on every state reachable under any schedule and any pattern of spurious wake-ups -/
+theorem no_deadlock_with_spurious_wakeups (f : σ → Block → σ × Block) (inp : Input) (hwf : inp.WF) (ispad : Bool) (P T : Nat) (hT : 0 < T)
+    (hP : FirstNonFull inp P) (ws0 : Nat → σ) (s : St σ) (h : ReachS f inp ispad T ws0 s) :
+    allDone T s ∨ ∃ tid, (step f inp ispad T s tid).isSome :=
+  Proofs.PipeSpurious.no_deadlock_S f inp hwf ispad P T hT hP ws0 s h
+
+/-- a spurious wake-up is harmless: the woken thread re-tests its predicate, finds it false and sleeps again — its next step
+    restores the state exactly (this is what the `while` around every `cv.wait` buys) -/
+theorem spurious_wakeup_is_undone_by_the_retest (f : σ → Block → σ × Block) (inp : Input) (hwf : inp.WF) (ispad : Bool) (P T : Nat)
+    (hT : 0 < T) (hP : FirstNonFull inp P) (ws0 : Nat → σ) (s s' : St σ) (tid : Option Nat)
+    (h : ReachS f inp ispad T ws0 s) (hs : spurious T s tid = some s') : step f inp ispad T s' tid = some s :=
+  Proofs.PipeSpurious.spurious_then_retest_restores f inp hwf ispad P T hT hP ws0 s s' tid h hs
+
+/-- (b) every ordinary step still decreases the measure, and an execution with finitely many spurious wake-ups is finite -/
+theorem every_step_decreases_with_spurious_wakeups (f : σ → Block → σ × Block) (inp : Input) (hwf : inp.WF) (ispad : Bool) (P T : Nat)
+    (hT : 0 < T) (hP : FirstNonFull inp P) (ws0 : Nat → σ) (s s' : St σ) (tid : Option Nat)
+    (h : ReachS f inp ispad T ws0 s) (hs : step f inp ispad T s tid = some s') : lt4 (mu P T s') (mu P T s) :=
+  Proofs.PipeSpurious.run_step_decreases_S f inp hwf ispad P T hT hP ws0 s s' tid h hs
+
+theorem no_infinite_execution_with_finitely_many_spurious_wakeups (f : σ → Block → σ × Block) (inp : Input) (hwf : inp.WF) (ispad : Bool)
+    (P T : Nat) (hT : 0 < T) (hP : FirstNonFull inp P) (ws0 : Nat → σ)
+    (run : Nat → St σ) (evs : Nat → Ev) (h0 : run 0 = init T ws0)
+    (hstep : ∀ n, stepS f inp ispad T (run n) (evs n) = some (run (n + 1)))
+    (N : Nat) (hfin : ∀ n, N ≤ n → (evs n).isSpur = false) : False :=
+  Proofs.PipeSpurious.no_infinite_execution_S f inp hwf ispad P T hT hP ws0 run evs h0 hstep N hfin
+
+/-- non-vacuity: a spurious wake-up is possible in a reachable state (worker 0 goes to sleep in its first wait, then is woken) -/
+example : (spurious 1 (runSched toyF (fun _ => ([], .nodata)) true 1 (init 1 (fun _ => 0)) [some 0]) (some 0)).isSome = true := by
+  decide +kernel
 
 end Wencry.Props.C04
